@@ -213,126 +213,71 @@ func (i *Iterator) Next(ctx context.Context, span telem.TimeSpan) (ok bool) {
 	return
 }
 
+// autoNext moves the view to [view.End, e), where e is chosen through the index so that
+// the view holds the next AutoChunkSize samples (fewer when the bounds end first), and
+// then reads the view exactly like a span-based Next.
 func (i *Iterator) autoNext(ctx context.Context) bool {
-	i.view.Start = i.view.End
-	endApprox, err := i.idx.Stamp(
-		ctx,
-		i.view.Start,
-		i.AutoChunkSize,
-		index.AllowDiscontinuous,
-	)
-	if err != nil {
-		i.err = err
+	start, end := i.view.End, i.bounds.End
+	// Data can only start in the first domain at or after the view start; when the view
+	// start lies in a gap between domains the chunk is counted from that domain's start.
+	// Without such a domain the view runs to the end of the bounds.
+	if i.internal.SeekGE(ctx, start) {
+		ref := start
+		if i.internal.TimeRange().Start.After(ref) {
+			ref = i.internal.TimeRange().Start
+		}
+		endApprox, err := i.idx.Stamp(ctx, ref, i.AutoChunkSize, index.AllowDiscontinuous)
+		if err != nil {
+			i.reset(start.SpanRange(0))
+			i.err = err
+			return false
+		}
+		// An exact approximation is the timestamp of the first sample AFTER the chunk; an
+		// inexact one has the timestamp of the LAST sample of the chunk as its lower bound.
+		end = endApprox.Lower
+		if !endApprox.Exact() {
+			end++
+		}
+		if end.After(i.bounds.End) {
+			end = i.bounds.End
+		}
+	}
+	if !end.After(start) {
+		i.reset(start.SpanRange(0))
 		return false
 	}
-	if endApprox.Lower.After(i.bounds.End) {
-		return i.Next(ctx, i.view.Start.Span(i.bounds.End))
-	}
-	i.view.End = endApprox.Lower
-	i.reset(i.view.BoundBy(i.bounds))
-
-	nRemaining := i.AutoChunkSize
-	for {
-		if !i.internal.TimeRange().OverlapsWith(i.view) {
-			if !i.internal.Next() {
-				return false
-			}
-			continue
-		}
-		startApprox, dmn, err := i.approximateStart(ctx)
-		if err != nil {
-			i.err = err
-			return false
-		}
-		startSample := startApprox.Upper
-		if !startApprox.Exact() && !startApprox.StartExact {
-			startSample = startApprox.Lower
-		}
-		startOffset, err := i.resolver.byteOffset(ctx, i.internal, startSample)
-		if err != nil {
-			i.err = err
-			return false
-		}
-		endOffset, err := i.resolver.byteOffset(ctx, i.internal, startSample+nRemaining)
-		if err != nil {
-			i.err = err
-			return false
-		}
-		series, err := i.read(ctx, dmn, startOffset, endOffset-startOffset)
-		if err != nil && !errors.Is(err, io.EOF) {
-			i.err = err
-			return false
-		}
-		nRemaining -= series.Len()
-		i.insert(series)
-		if nRemaining <= 0 || !i.internal.Next() {
-			break
-		}
-	}
-
-	return i.partiallySatisfied()
+	return i.Next(ctx, start.Span(end))
 }
 
+// autoPrev is the mirror image of autoNext: the view becomes [s, view.Start) holding the
+// previous AutoChunkSize samples.
 func (i *Iterator) autoPrev(ctx context.Context) bool {
-	i.view.End = i.view.Start
-	startApprox, err := i.idx.Stamp(
-		ctx,
-		i.view.Start,
-		-i.AutoChunkSize,
-		index.AllowDiscontinuous,
-	)
-	if err != nil {
-		i.err = err
+	start, end := i.bounds.Start, i.view.Start
+	if i.internal.SeekLE(ctx, end-1) {
+		// The chunk is counted back from the last instant inside the view (and inside the
+		// domain that can hold its last sample, when the view end lies in a gap): a sample
+		// at that instant belongs to the chunk, so the lower bound of the approximation
+		// always is the timestamp of the sample BEFORE the chunk.
+		ref := end
+		if i.internal.TimeRange().End.Before(ref) {
+			ref = i.internal.TimeRange().End
+		}
+		startApprox, err := i.idx.Stamp(ctx, ref-1, -i.AutoChunkSize, index.AllowDiscontinuous)
+		if err != nil {
+			i.reset(end.SpanRange(0))
+			i.err = err
+			return false
+		}
+		start = startApprox.Lower + 1
+		if start.Before(i.bounds.Start) {
+			start = i.bounds.Start
+		}
+	}
+	if !start.Before(end) {
+		i.reset(end.SpanRange(0))
 		return false
 	}
-	if startApprox.Lower.Before(i.bounds.Start) {
-		return i.Prev(ctx, i.bounds.Start.Span(i.view.End))
-	}
-	i.view.Start = startApprox.Lower + 1
-	i.reset(i.view.BoundBy(i.bounds))
-	nRemaining := i.AutoChunkSize
-	for {
-		if !i.internal.TimeRange().OverlapsWith(i.view) {
-			if !i.internal.Prev() {
-				return false
-			}
-			continue
-		}
-		endApprox, err := i.approximateEnd(ctx)
-		if err != nil {
-			i.err = err
-			return false
-		}
-		endSample := endApprox.Upper
-		if !startApprox.Exact() && !endApprox.StartExact {
-			endSample = endApprox.Lower
-		}
-		endOffset, err := i.resolver.byteOffset(ctx, i.internal, endSample)
-		if err != nil {
-			i.err = err
-			return false
-		}
-		startSample := endSample - nRemaining
-		if startSample < 0 {
-			startSample = 0
-		}
-		startOffset, err := i.resolver.byteOffset(ctx, i.internal, startSample)
-		if err != nil {
-			i.err = err
-			return false
-		}
-		series, err := i.read(ctx, 0, startOffset, endOffset-startOffset)
-		if err != nil && !errors.Is(err, io.EOF) {
-			i.err = err
-			return false
-		}
-		nRemaining -= series.Len()
-		i.insert(series)
-		if nRemaining <= 0 || !i.internal.Prev() {
-			break
-		}
-	}
-	return i.partiallySatisfied()
+	return i.Prev(ctx, start.Span(end))
 }
 
 // Prev moves the iterator backward by span. More specifically, if the current view is
